@@ -113,6 +113,13 @@ def date(  # noqa: PLR0912 PLR0911
     return rv
 
 
+def _null_default(obj: object) -> object:
+    """Serialize objects that stand for nil (undefined, missing `map` items) as null."""
+    if obj == None:  # noqa: E711
+        return None
+    raise TypeError(f"Object of type {type(obj).__name__} is not JSON serializable")
+
+
 class JSON:
     """Serialize an object to a JSON formatted string.
 
@@ -135,6 +142,6 @@ class JSON:
         """Apply this filter to _left_ and return the result."""
         indent = int_arg(indent) if indent else None
         try:
-            return json.dumps(left, default=self.default, indent=indent)
+            return json.dumps(left, default=self.default or _null_default, indent=indent)
         except TypeError as err:
             raise LiquidTypeError(str(err), token=None) from err
